@@ -14,9 +14,10 @@ def val(b):
 
 class C06(Prop):
     pid = "C06"
-    lean_targets = ["M17.Props.C06"]
+    lean_targets = ["M17.Props.C06", "M17.Props.C03"]
     theorems = ["M17.C06.gen_thresholds", "M17.C06.update_sane", "M17.C06.dcd_no_nan_latch", "M17.C06.update_level_ge",
-                "M17.C06.dcd_recovers", "M17.C06.run_level_ge", "M17.C06.dcd_recovers_within", "M17.C06.dcd_recovers_10_at_4_5", "M17.C06.dcd_holds", "M17.C06.unguarded_silence_is_nan", "M17.C06.unguarded_nan_latches"]
+                "M17.C06.dcd_recovers", "M17.C06.run_level_ge", "M17.C06.dcd_recovers_within", "M17.C06.dcd_recovers_10_at_4_5", "M17.C06.dcd_holds", "M17.C06.unguarded_silence_is_nan", "M17.C06.unguarded_nan_latches",
+                "M17.C03.coast_step", "M17.C03.coasting_bounded"]
     level_text = ("PARTIAL proof. Lean 4 theorems about the carrier detector's update (model M17/Model/Dcd.lean, thresholds regenerated from "
                   "the current header), in exact arithmetic extended with the IEEE special values: for ALL histories of finite non-negative band "
                   "energies — exact digital silence (0/0) included — the averaged level stays a finite number (dcd_no_nan_latch, induction over "
@@ -24,7 +25,10 @@ class C06(Prop):
                   "in-band/out-of-band ratio >= 8 assert carrier detect (dcd_recovers), and in general n blocks of ratio >= r do as soon as (4/5)^n r < r - htrigger (dcd_recovers_within, induction over the blocks; 10 blocks at the measured worst-case ratio 4.5); it then holds while the ratio exceeds the low threshold; "
                   "and the two theorems that say what the guard is for (without it silence gives NaN and NaN latches for every later input). "
                   "The same update function is executed at binary32 (with the C++ expression's promotion to double) bit-for-bit against "
-                  "DataCarrierDetect::update on random and boundary band energies. NOT proved: that a clean transmission produces ratio >= 4.5 on every block "
+                  "DataCarrierDetect::update on random and boundary band energies. On the control skeleton of the demodulator (M17/Model/Demod.lean, tied to the code by C03's trace inclusion): coasting is "
+                  "bounded (coasting_bounded, for all event sequences) — without a sync word at most MAX_MISSING_SYNC further frames are delivered before "
+                  "the sync state machine gives up and searches afresh, so misaligned frames that merely decode below the cost limit cannot hold it for ever. "
+                  "NOT proved: that a clean transmission produces ratio >= 4.5 on every block "
                   "(measured on every run and recorded), and the sync search / clock acquisition that follow carrier detect (floating-point "
                   "correlator, Kalman filters): these are explored end to end — lead-in histories x channel envelope x clean transmissions "
                   "through the real demodulator, oracle = steady reception (8 consecutive bit-exact frames) within 400 frames.")
@@ -108,6 +112,8 @@ class C06(Prop):
         sent_l = demodlib.sent_stream_payloads(ctx, mod, audio_l)
         audio_p = [rng.randrange(-8000, 8000) for _ in range(320 * 12)]
         tx_p, _, _ = demodlib.transmission(ctx, mod, "K9XYZ", "W1AW", 0, audio_p)
+        audio_q = [rng.randrange(-8000, 8000) for _ in range(320 * 70)]
+        tx_q, _, _ = demodlib.transmission(ctx, mod, "K9XYZ", "", 9, audio_q)      # long enough for the receiver to be locked when it is cut
 
         # premise of dcd_recovers measured on the clean transmission: ratio of the band energies per detector block
         rep = ctx.run_impl(demod, ["dcd_ratio 384 " + " ".join(map(str, tx_s))], "dcd-ratio")[0].split()
@@ -124,7 +130,10 @@ class C06(Prop):
         def scenario(k):
             p = {"gain": rng.choice([300, 1000, 3500, rng.randrange(300, 3501)]), "dc": rng.randrange(-300, 301), "sigma": rng.choice([0, 0, 10, 50]),
                  "delay": rng.randrange(1000), "ppm": rng.randrange(-200, 201), "lead": 0, "leadn": 0, "level": 0, "seed": rng.randrange(10 ** 6), "app": 0}
-            hist = rng.choice(["zeros", "zeros", "gauss", "uniform", "const", "tone", "prev", "prev-trunc", "prev-zero-gap", "none"])
+            hist = rng.choice(["zeros", "zeros", "gauss", "uniform", "const", "tone", "prev", "prev-trunc", "prev-zero-gap", "none",
+                               "locked-trunc-silence", "locked-trunc-silence", "locked-trunc-noise"])
+            if k in (1, 2, 3, 4, 5):
+                hist = "locked-trunc-silence"
             pre = []
             if hist == "zeros":
                 p.update(lead=1, leadn=rng.choice([100, 384, 768, 1920, 5000, 48000, 200000]))
@@ -146,14 +155,31 @@ class C06(Prop):
                     # exact digital silence between transmissions: no dc, no noise
                     p.update(dc=0, sigma=0)
                     pre = prev + [0] * rng.choice([4800, 48000, 200000])
+            if hist.startswith("locked-trunc"):
+                # the earlier transmission is cut while it is being received; then silence (exact zeros) or noise; then the new transmission
+                cut = rng.randrange(70000, len(tx_q) - 3000)
+                gap = rng.choice([500, 960, 1000, 1920, 4805, 10000, 48137, rng.randrange(100, 60000)])
+                pre = tx_q[:cut] + [0] * gap
+                if hist == "locked-trunc-silence":
+                    p.update(dc=0, sigma=0)
+                else:
+                    p.update(sigma=rng.choice([10, 50, 200]))
             if hist == "zeros" and rng.random() < 0.5:
                 p.update(lead=1)
             return hist, p, pre
 
-        n = 24 if quick else 400
+        n = 28 if quick else 400
         fails = 0
-        for k in range(n):
-            hist, p, pre = scenario(k)
+        sweep = []
+        cut0 = rng.randrange(90000, 110000)
+        for g in range(40 if quick else 400):
+            # sweep of the silence length after a transmission cut while it was being received: the old frame timing keeps running,
+            # what matters is how the new transmission falls relative to it
+            p = {"gain": rng.choice([1000, 1000, 300, 3500]), "dc": 0, "sigma": 0, "delay": rng.randrange(1000), "ppm": rng.choice([0, 0, 50, -120]),
+                 "lead": 0, "leadn": 0, "level": 0, "seed": rng.randrange(10 ** 6), "app": 0}
+            sweep.append(("locked-trunc-silence-sweep", p, tx_q[:cut0 + 17 * g] + [0] * rng.randrange(100, 20000)))
+        for k in range(n + len(sweep)):
+            hist, p, pre = scenario(k) if k < n else sweep[k - n]
             long_ = (k % 8 == 0)
             tx, sent = (tx_l, sent_l) if long_ else (tx_s, sent_s)
             ln, rep, rc, err = demodlib.run_rx(ctx, demod, p, pre + tx)
